@@ -26,10 +26,94 @@ def observe_query(env, q, doc):
     return real.observe_stream(compiled, doc), compiled
 
 
-def sweep(res, envdesc, cases, prop, jobs=8, check_ast_iter=True, expect_valid=False):
+def history_stage(res, envdesc, cases, prop, rng=None, limit=250, jobs=8):
+    """The property quantifies over every (query, value) — also the ones met by a compiled query that has been
+    used before.  For a sample of the cases: compile once; apply; abandon an application half way (find_one, a
+    partly consumed finditer); apply to a value beyond the depth limit (an application that ends in an error);
+    apply again to the first value (must repeat the first outcome); then edit the very same container object
+    in place and apply again (must give the RFC nodelist of the edited value, judged by the oracle)."""
+    import copy
+    import random
+
+    import checks_api
+
+    rng = rng or random.Random(len(cases))
+    env = real.make_env(envdesc)
+    eenv = real.enc_env(envdesc)
+    step = max(1, len(cases) // limit)
+    lines, got = [], []
+    deep = None
+    for _ in range(int(envdesc["maxDepth"]) + 2 if int(envdesc["maxDepth"]) <= 200 else 0):
+        deep = [deep] if deep is not None else [0]
+    for q, doc in cases[::step]:
+        if not isinstance(doc, (dict, list)):
+            continue
+        try:
+            _line, compiled = real.observe_compile(env, q)
+            if compiled is None:
+                continue
+            live = copy.deepcopy(doc)
+            first = real.observe_stream(compiled, live)
+            try:
+                compiled.find_one(live)
+                it = iter(compiled.finditer(live))
+                next(it, None)
+                del it
+            except Exception:  # noqa: BLE001
+                pass
+            if deep is not None:
+                try:
+                    compiled.find(deep)
+                except Exception:  # noqa: BLE001
+                    pass
+            again = real.observe_stream(compiled, live)
+        except RecursionError:
+            continue
+        res.evaluations += 1
+        if again != first:
+            res.violations.append({"property": prop, "query": q, "document": doc, "env": envdesc,
+                                   "observed": again[:300], "expected": first[:300],
+                                   "history": "compile once; find; find_one; a finditer consumed for one item and dropped; find on a value nested beyond the limit; find again on the first value (shown)",
+                                   "what": "a compiled query applied again to the same value gives another outcome than the first time"})
+            continue
+        for _e in range(2):
+            checks_api.edit_in_place(rng, live)
+            snap = copy.deepcopy(live)
+            try:
+                got.append((q, snap, real.observe_stream(compiled, live)))
+            except RecursionError:
+                break
+            lines.append(f"rfc.query\t{eenv}\t{wire.enc_str(q)}\t{wire.enc_json(snap)}")
+    if not lines:
+        return
+    maxdepth = envdesc["maxDepth"]
+    for (q, snap, rl), rep in zip(got, model.run_batch_parallel(lines, jobs=jobs)):
+        res.evaluations += 1
+        if rep.split("\t")[0] != "valid":
+            continue
+        want = rep.split("\t", 1)[1] if "\t" in rep else ""
+        if rl.startswith("stream\t") and rl.endswith("\tend"):
+            if rl.split("\t")[1] != want:
+                res.violations.append({"property": prop, "query": q, "document": snap, "env": envdesc,
+                                       "observed": rl.split("\t")[1][:300], "expected": want[:300],
+                                       "history": "compile once; apply; edit the same container object in place; apply again (second result shown)",
+                                       "what": "a reused compiled query does not return the RFC 9535 nodelist of the value it is applied to"})
+        elif rl.endswith("err JSONPathRecursionError") and doc_depth(snap) > maxdepth:
+            pass
+        else:
+            res.violations.append({"property": prop, "query": q, "document": snap, "env": envdesc,
+                                   "observed": rl[:300], "expected": want[:300],
+                                   "history": "compile once; apply; edit the same container object in place; apply again (second result shown)",
+                                   "what": "a reused compiled query raises on a value the RFC gives a nodelist for"})
+    res.count("history-stage-cases", len(lines))
+
+
+def sweep(res, envdesc, cases, prop, jobs=8, check_ast_iter=True, expect_valid=False, history=True):
     """cases: list of (query_text, doc). Fills `res` (framework.CheckResult)."""
     if not cases:
         return
+    if history:
+        history_stage(res, envdesc, cases, prop, jobs=jobs)
     env = real.make_env(envdesc)
     eenv = real.enc_env(envdesc)
     lines = []
@@ -175,7 +259,7 @@ def shrink(envdesc, q, doc, prop, rounds=6, per_round=80):
             break
         res = fw.CheckResult()
         try:
-            sweep(res, envdesc, cands, prop, check_ast_iter=False)
+            sweep(res, envdesc, cands, prop, check_ast_iter=False, history=False)
         except Exception:  # noqa: BLE001
             break
         failing = {(v["query"], json.dumps(v["document"], sort_keys=True, default=str)) for v in res.violations
